@@ -429,9 +429,13 @@ func partB4(run *hx.Run, r *hx.Rand, b *bufRun, root string) {
 		must0(os.WriteFile(filepath.Join(tmp, "sub.zip"), zipBytes(dir, "a/b/"), 0o644))
 		wr := wsRun{ws: ws, dir: dir, tmp: tmp, tf: tf}
 		if i%3 == 0 || run.Thorough() {
-			// a git repository of the same tree (symlinks are checked out as symlinks)
+			// a git repository of the same tree.  Symlinks are resolved to their content, as in the
+			// archives: buf's git reader deliberately does not read symlinks (private/pkg/git/cloner.go,
+			// "we do NOT want to read in symlinks"), so a committed symlink is no packaging of the file
+			// behind it.  (The thorough tier builds a repository for every layout, the symlink layout
+			// included; with `cp -a` it alarmed with C11-packaging-differs on the unchanged tree.)
 			g := filepath.Join(tmp, "repo")
-			must0(exec.Command("cp", "-a", dir, g).Run())
+			must0(exec.Command("cp", "-aL", dir, g).Run())
 			wr.git = gitInit(g)
 		}
 		runs = append(runs, wr)
